@@ -17,6 +17,7 @@ META = {
     "assumptions": [
         "alphabet members only (no claim for other reals)",
         "oracle differentiates the implementation's own error function (C02 owns the error model, C09 the boxplus)",
+        "each configuration is also evaluated a second time after an in-place edit of the first vertex's pose (history of length 2)",
         "SE(2) angular error is unwrapped by multiples of 2 pi before differencing (the property excludes the wrap set); SE(3) rotational error sign is aligned when |q_vec| > 0.5",
         "tolerance 1e-6 x (1 + largest translation magnitude in the configuration)",
     ],
@@ -180,6 +181,24 @@ def _eval(case):
         after = [I.comps(v.pose) for v in e.vertices]
         if after != before:
             msgs.append("calc_jacobians changed a vertex pose")
+        # history: evaluate the error, edit the first vertex's pose IN PLACE (a user may do that: poses are arrays), then ask
+        # for the Jacobians again -- they must be the derivative at the NEW pose (no stale intermediate results)
+        if not msgs:
+            e.calc_error()
+            src = case["z"] if case["edge"] == "odo" else case["off"]
+            np.asarray(e.vertices[0].pose)[...] = I.comps(I.mk_pose(kind, src))
+            jacs2 = e.calc_jacobians()
+            for vi in (0, 1):
+                Ja = np.asarray(jacs2[vi], dtype=float)
+                cd = e.vertices[vi].pose.COMPACT_DIMENSIONALITY
+                e0, Jn = D.edge_fd_jacobian(e, vi, angle_idx, rot)
+                nops += 1 + 4 * cd
+                diff = np.abs(Ja - Jn)
+                dmax = float(np.max(diff)) if Ja.shape == Jn.shape else float("inf")
+                r = dmax / (TOL * sc)
+                ratio = max(ratio, r)
+                if not r <= 1.0:
+                    msgs.append("after editing the pose of vertex 0 in place (calc_error evaluated before the edit): Jacobian %d differs from the 5-point derivative at the new pose by %.3g" % (vi, dmax))
         return msgs, ratio, nontriv, nops
     except Exception as ex:
         return ["%s raised %s: %s" % (case["edge"], type(ex).__name__, ex)], float("inf"), False, 1
